@@ -420,7 +420,85 @@ def case_discovery_api(p):
     return out
 
 
-CASES = {"lowlevel": case_lowlevel, "pairing_api": case_pairing_api, "reconnect_host": case_reconnect_host, "discovery_api": case_discovery_api}
+OVERLAP_POOL = [
+    ("get", "/characteristics?id=1.9", None),
+    ("put_json", "/characteristics", {"characteristics": [{"aid": 1, "iid": 10, "value": 7}]}),
+    ("post", "/pairings", b"\x06\x01\x01\x00\x01\x05"),
+    ("put_json", "/characteristics", {"characteristics": [{"aid": 2, "iid": 9, "ev": True}]}),
+    ("get", "/accessories", None),
+    ("post_json", "/resource", {"aid": 1, "resource-type": "image", "image-width": 64, "image-height": 48}),
+]
+
+
+def case_overlap(p):
+    """Several callers issue different requests on one connection while the accessory is still silent on the first; the answers then come one by
+    one.  Every request issued has to appear on the wire exactly once, as its own canonical bytes, handed over in one transport call."""
+    host = p["host"]
+    rig = IpRig(seed=p.get("seed", 0), hosts=[host])
+    out = []
+    try:
+        rig.acc.handler = lambda sess, method, target, headers, body: (200, b"\x06\x01\x02", "application/pairing+tlv8") if ("Content-Type", "application/pairing+tlv8") in headers else (200, b"{}", "application/hap+json")
+        rig.connect()
+        cap = Cap(rig)
+        c = rig.conn
+        rig.auto_deliver = False
+        m = cap.mark()
+        want = []
+        tasks = []
+        for i in p["calls"]:
+            api, target, arg = OVERLAP_POOL[i]
+            if api == "get":
+                coro, method, body, ctype = c.get(target), "GET", None, None
+            elif api == "post":
+                coro, method, body, ctype = c.post(target, arg), "POST", arg, "application/pairing+tlv8"
+            elif api == "put_json":
+                coro, method, body, ctype = c.put_json(target, arg), "PUT", json.dumps(arg, separators=(",", ":")).encode(), "application/hap+json"
+            else:
+                coro, method, body, ctype = c.post_json(target, arg), "POST", json.dumps(arg, separators=(",", ":")).encode(), "application/hap+json"
+            want.append((method, target, body, ctype))
+            tasks.append(rig.loop.create_task(coro))
+            if p.get("stagger"):
+                rig.loop.run_until_idle()
+        for _ in range(4 * len(tasks) + 4):
+            rig.loop.run_until_idle()
+            if all(t.done() for t in tasks):
+                break
+            if rig.outbox:
+                cc, data = rig.outbox.pop(0)
+                cc.send(data)
+        det = {"host": host, "calls": [OVERLAP_POOL[i][:2] for i in p["calls"]], "stagger": bool(p.get("stagger"))}
+        for t in tasks:
+            if not t.done():
+                out.append(("overlap:caller-never-answered", det))
+                t.cancel()
+            elif t.exception() is not None:
+                out.append((f"overlap:request-raises:{type(t.exception()).__name__}", dict(det, err=str(t.exception())[:160])))
+        reqs, calls, conn = cap.since(m)
+        if len(reqs) != len(want):
+            out.append(("overlap:not-exactly-one-request-on-the-wire-per-call", dict(det, got=[(r[1], r[2]) for r in reqs])))
+        if len(calls) != len(reqs):
+            out.append(("request-not-handed-to-transport-in-one-call", dict(det, calls=[(k, len(d)) for k, d in calls])))
+        left = list(want)
+        for secure, method, target, headers, body, raw in reqs:
+            cands = [w for w in left if canonical(*w[:2], host, *w[2:]) == raw]
+            if cands:
+                left.remove(cands[0])
+                continue
+            same = [w for w in left if (w[0], w[1]) == (method, target)]
+            if same:
+                out += [("overlap:" + s_, d_) for s_, d_ in judge_raw(raw, same[0][0], same[0][1], host, same[0][2], same[0][3], det)]
+                left.remove(same[0])
+            else:
+                out.append(("overlap:bytes-on-the-wire-belong-to-no-request-still-owed", dict(det, got=raw[:200], owed=[(w[0], w[1]) for w in left])))
+        if conn.session.errors:
+            out.append(("accessory-could-not-decode-request", dict(det, errors=conn.session.errors)))
+    finally:
+        rig.close()
+    p["_n"] = len(p["calls"])
+    return out
+
+
+CASES = {"overlap": case_overlap, "lowlevel": case_lowlevel, "pairing_api": case_pairing_api, "reconnect_host": case_reconnect_host, "discovery_api": case_discovery_api}
 
 
 def _work(item, seed, tier):
@@ -468,12 +546,21 @@ def run(ctx):
             work.append(("lowlevel", {"host": host, "calls": calls[i : i + 25]}))
         work.append(("pairing_api", {"host": host, "max_ids": 3 if quick else 5}))
         work.append(("discovery_api", {"host": host}))
+    # overlapping callers: every ordered choice of 2..4 (quick: ..3, +4 on one host) different requests, issued back to back or each after the previous reached the wire/queue
+    for host in hosts[:3]:
+        for k in (2, 3) if quick else (2, 3, 4):
+            for calls in itertools.permutations(range(len(OVERLAP_POOL)), k):
+                for stagger in (False, True):
+                    work.append(("overlap", {"host": host, "calls": list(calls), "stagger": stagger}))
+    if quick:
+        for calls in itertools.permutations(range(4), 4):
+            work.append(("overlap", {"host": hosts[0], "calls": list(calls), "stagger": False}))
     for hosts in (["fd00::1:2", "192.168.1.5"], ["192.168.1.5", "fe80::1%eth0"], ["192.168.1.5", "192.168.1.6"]):
         for order in ([hosts[0], hosts[1]], [hosts[1], hosts[0], hosts[1]]):
             work.append(("reconnect_host", {"host": hosts[0], "hosts": hosts, "order": order}))
     ctx.pmap(_work, work)
     ctx.exhaustive = True
     ctx.bounds.update(hosts=hosts, targets=targets, json_objects=len(objs), id_subsets_up_to=3 if quick else 5)
-    for s in ("lowlevel", "pairing_api", "reconnect_host", "discovery_api", "host:v4", "host:v6", "host:scoped"):
+    for s in ("overlap", "lowlevel", "pairing_api", "reconnect_host", "discovery_api", "host:v4", "host:v6", "host:scoped"):
         ctx.require(ctx.acc.symbols[s] > 0, f"{s} never ran")
     ctx.require(ctx.acc.extra["requests_checked"] > 200, "too few requests checked")
